@@ -39,11 +39,11 @@ Definition bg_seed : N * N * N * option N := (384, 0, 0, None).  (* 0600, 00, 00
 (* how each file is created: (the name is unlinked first, O_EXCL, O_NOFOLLOW), from the same traces *)
 Definition fg_sock_how : bool * bool * bool := (true, false, false).
 Definition fg_lock_how : bool * bool * bool := (false, false, false).
-Definition fg_pid_how : bool * bool * bool := (false, false, false).
+Definition fg_pid_how : bool * bool * bool := (true, false, false).
 Definition fg_seed_how : bool * bool * bool := (true, false, false).
 Definition bg_sock_how : bool * bool * bool := (true, false, false).
 Definition bg_lock_how : bool * bool * bool := (false, false, false).
-Definition bg_pid_how : bool * bool * bool := (false, false, false).
+Definition bg_pid_how : bool * bool * bool := (true, false, false).
 Definition bg_log_how : bool * bool * bool := (false, false, false).
 Definition bg_seed_how : bool * bool * bool := (true, false, false).
 (* which of the process's user ids each ownership test compares with, observed by starting munged with
